@@ -463,3 +463,22 @@ def _lin_eq(a, b, asg):
                 t[atom] = t.get(atom, 0) + k
         return {x: y for x, y in t.items() if y}, c
     return nz(a) == nz(b)
+
+
+def _targets():
+    # every constructor / get_raw / getter of the format classes + the dispatcher
+    names = ["10x", "12x", "11n", "11x", "10t", "20t", "22x", "21t", "21s", "21h", "21c", "23x", "22b", "22t", "22s", "22c",
+             "30t", "32x", "31i", "31t", "31c", "35c", "3rc", "51l"]
+    out = [(DEX, "get_instruction"), (DEX, "Instruction.get_length"), (DEX, "Instruction.get_kind"), (DEX, "Instruction.get_name")]
+    for n in names:
+        for meth in ("__init__", "get_raw", "get_operands", "get_literals", "get_ref_off", "get_ref_kind"):
+            out.append((DEX, "Instruction%s.%s" % (n, meth)))
+    return out
+
+
+class _LazyTargets(list):
+    pass
+
+
+MUTATION_TARGETS = _targets()
+MUTATION_LIMIT = 240
